@@ -123,6 +123,11 @@ Quirk == /\ Step("quirk")
 Info == /\ l <= Len(Trace) /\ E.k \in {"imgcfg", "framecfg", "frame", "skip"} /\ l' = l + 1
         /\ bad' = {} /\ s' = s
 
+\* C10: the pure methods of the interface were called around the run; the receiver's bytes must not change
+Pure == /\ Step("pure")
+        /\ bad' = (IF E.objchg THEN {"PureLeavesReceiverUnchanged"} ELSE {}) \cup (IF E.al # 0 THEN {"NoAllocInCall"} ELSE {})
+        /\ s' = s
+
 End == /\ Step("end")
        /\ bad' = EndBad
        /\ s' = [s EXCEPT !.phase = "ended"]
@@ -132,7 +137,7 @@ Timeout == /\ Step("timeout") /\ bad' = {"ReturnsAfterBoundedWork"} /\ s' = [s E
 \* inserted by the runner when the driver process died with a sanitizer report
 Crash == /\ Step("crash") /\ bad' = {"NoSanitizerReport_" \o E.what} /\ s' = [s EXCEPT !.phase = "ended"]
 
-TNext == Start \/ Expect \/ Begin \/ Call \/ HCall \/ Quirk \/ Info \/ End \/ Timeout \/ Crash
+TNext == Start \/ Expect \/ Begin \/ Call \/ HCall \/ Quirk \/ Info \/ Pure \/ End \/ Timeout \/ Crash
 TSpec == TInit /\ [][TNext]_tvars
 
 Accepted == bad = {}
